@@ -314,15 +314,17 @@ impl<const BITS: usize, const LIMBS: usize> Uint<BITS, LIMBS> {
 
     #[inline(always)]
     fn apply_mask(&mut self) {
+        // Mentioning `Self::LIMBS` rejects types with an incorrect `LIMBS`.
         if Self::SHOULD_MASK {
-            self.limbs[LIMBS - 1] &= Self::MASK;
+            self.limbs[Self::LIMBS - 1] &= Self::MASK;
         }
     }
 
     #[inline(always)]
     const fn masked(mut self) -> Self {
+        // Mentioning `Self::LIMBS` rejects types with an incorrect `LIMBS`.
         if Self::SHOULD_MASK {
-            self.limbs[LIMBS - 1] &= Self::MASK;
+            self.limbs[Self::LIMBS - 1] &= Self::MASK;
         }
         self
     }
